@@ -36,6 +36,8 @@ def run(ctx):
     ctx.rule("R2", "the convergence flag is the un-laundered result of the convergence test, passed through to the caller")
     ctx.rule("R3", "shape of the convergence test and identity of eps")
     ctx.rule("R4", "the iteration cap is real: positive literal bounding every driver's loop, flag returned after exhaustion")
+    ctx.rule("R5", "the unrolled (backward=True) arm of every density update computes the same new density as the in-place arm")
+    check_arm_agreement(ctx, scf, "R5")
 
     # ------------------------------------------------------------------ R1
     n_while = 0
@@ -293,3 +295,120 @@ def run(ctx):
     warn = [c for c in calls_in(sl) if (call_name(c) or "") == "warnings.warn"]
     wn = [c for c in warn if any(p and "notconverged.any()" in norm(a) for a, p, _ in controlling(scf, scf.enclosing_stmt(c)))]
     ctx.check(bool(wn), "R4", scf, sl, "scf_loop", "warnings.warn", "scf_loop warns when some molecule did not converge", "non-convergence warning removed")
+
+
+def check_arm_agreement(ctx, scf, rid):
+    """For every `if backward: ... else: ...` in the SCF drivers that updates the density, interpret both arms symbolically
+    (masked stores on the active molecules = full assignment for an active molecule) and require the same new P and Pold."""
+    import sympy as sp
+
+    from ..exprs import identically, to_sympy, torch_funcs
+    n = 0
+    for d in ("scf_forward0", "scf_forward1", "scf_forward2"):
+        f = scf.func(d)
+        for iff in ast.walk(f):
+            if not (isinstance(iff, ast.If) and norm(iff.test) == "backward" and iff.orelse):
+                continue
+            if not any(isinstance(s_, ast.Assign) and norm(s_.targets[0]).startswith("P") for s_ in iff.body):
+                continue
+            n += 1
+            syms = {}
+
+            def sym(name):
+                return syms.setdefault(name, sp.Symbol(name, real=True))
+            funcs = torch_funcs()
+            funcs["torch.lerp"] = lambda a, nd: a[0] + a[2] * (a[1] - a[0])
+            funcs[".clone"] = lambda a, nd: a[0]
+
+            def interp(block):
+                env = {"one_minus_alpha": 1 - sym("alpha"), "fac_register": sym("fac")}
+                def key_of(t):
+                    # P[notconverged] -> P ; P[notconverged, 0] -> P_0
+                    if isinstance(t, ast.Name):
+                        return t.id
+                    if isinstance(t, ast.Subscript) and isinstance(t.value, ast.Name):
+                        sl = t.slice
+                        elts = sl.elts if isinstance(sl, ast.Tuple) else [sl]
+                        rest = [norm(e) for e in elts if norm(e) != "notconverged"]
+                        return t.value.id + ("_" + "_".join(rest) if rest else "")
+                    return None
+
+                def sub(nd, rec):
+                    k = key_of(nd)
+                    if k is None:
+                        raise AnalysisError(f"arm: subscript {norm(nd)}")
+                    return env.get(k, sym(k))
+
+                def atom(nd):
+                    if isinstance(nd, ast.Name):
+                        return env.get(nd.id, sym(nd.id))
+                    if isinstance(nd, ast.Constant):
+                        return None
+                    return None
+                fl = dict(funcs)
+                fl["[]"] = sub
+                for st in block:
+                    if isinstance(st, ast.Assign) and len(st.targets) == 1:
+                        k = key_of(st.targets[0])
+                        if k is None:
+                            continue
+                        v = to_sympy(st.value, env, fl, atom)
+                        if isinstance(st.targets[0], ast.Name) and k == "P" and isinstance(st.value, ast.Call) and callee_attr(st.value) == "clone" \
+                                and norm(st.value.func.value) == "P":
+                            continue  # P = P.clone(): fresh storage, same value
+                        env[k] = v
+                    elif isinstance(st, ast.If):
+                        # nested branch (e.g. cFock < 2): interpret both consistently by test text
+                        tkey = norm(st.test)
+                        a = interp_nested(st.body, dict(env))
+                        b = interp_nested(st.orelse, dict(env))
+                        for kk in set(a) | set(b):
+                            if kk.startswith("P"):
+                                env[kk + "@" + tkey + "=T"] = a.get(kk, env.get(kk, sym(kk)))
+                                env[kk + "@" + tkey + "=F"] = b.get(kk, env.get(kk, sym(kk)))
+                    elif isinstance(st, ast.Delete):
+                        continue
+                return env
+
+            def interp_nested(block, env0):
+                saved = dict(env0)
+                env = interp_block_with(block, saved)
+                return env
+
+            def interp_block_with(block, env_in):
+                # same as interp but starting from env_in
+                out = dict(env_in)
+                fl = dict(funcs)
+
+                def key_of(t):
+                    if isinstance(t, ast.Name):
+                        return t.id
+                    if isinstance(t, ast.Subscript) and isinstance(t.value, ast.Name):
+                        sl = t.slice
+                        elts = sl.elts if isinstance(sl, ast.Tuple) else [sl]
+                        rest = [norm(e) for e in elts if norm(e) != "notconverged"]
+                        return t.value.id + ("_" + "_".join(rest) if rest else "")
+                    return None
+                fl["[]"] = lambda nd, rec: out.get(key_of(nd), sym(key_of(nd)))
+                for st in block:
+                    if isinstance(st, ast.Assign) and len(st.targets) == 1:
+                        k = key_of(st.targets[0])
+                        if k:
+                            out[k] = to_sympy(st.value, out, fl, lambda nd: out.get(nd.id, sym(nd.id)) if isinstance(nd, ast.Name) else None)
+                return out
+            try:
+                ea, eb = interp(iff.body), interp(iff.orelse)
+            except AnalysisError as e:
+                raise AnalysisError(f"{d}: cannot interpret backward/forward arms at line {iff.lineno}: {e}")
+            keys = sorted(k for k in set(ea) | set(eb) if k.startswith("P") and not k.startswith("Pnew") and not k.startswith("Pmix"))
+            bad = []
+            for k in keys:
+                va, vb = ea.get(k, sym(k)), eb.get(k, sym(k))
+                if not identically(sp.expand(va - vb), 0):
+                    bad.append((k, va, vb))
+            ctx.check(not bad, rid, scf, iff, d, iff.test,
+                      f"{d} line {iff.lineno}: unrolled and in-place arms give the same new density ({keys})",
+                      f"{d}: the backward=True arm computes {bad[0][0]} = {bad[0][1]} but the default arm computes {bad[0][2]}: the unrolled solver follows a "
+                      f"different fixed-point iteration (e.g. mixing weights swapped: alpha = 0 never updates the density and is reported converged)" if bad else "")
+    if n < 5:
+        raise AnalysisError(f"only {n} backward/forward arm pairs found")
